@@ -336,6 +336,34 @@ def h_jacobi_sorted(eng, zero_allowed):
     eng.check(And(dvec[0] <= dvec[1], dvec[1] <= dvec[2], dvec[2] <= dvec[3]), "ascending")
 
 
+def h_jacobi_rotation(eng, i, j):
+    """one sweep on a matrix with a single non-zero off-diagonal pair (i,j): the real rotation step
+    must produce an orthogonal V with A0 V = V diag(d)"""
+    from pdb2pqr import quatfit
+
+    d = [eng.real(f"a{k}{k}") for k in range(4)]
+    b = eng.real("b")
+    eng.assume(And(b != 0, *[And(x > -100, x < 100) for x in d], b > -100, b < 100))
+    A0 = [[0.0] * 4 for _ in range(4)]
+    for k in range(4):
+        A0[k][k] = d[k]
+    A0[i][j] = b
+    amat = [row[:] for row in A0]
+    sh = [(quatfit, "math", shims.MATH), (quatfit, "abs", core.sym_abs)] if eng.symbolic else []
+    with patched(*sh):
+        dvec, vmat = quatfit.jacobi(amat, 1)
+    full = lambda r, c: A0[r][c] if r <= c else A0[c][r]
+    for c in range(4):
+        for r in range(4):
+            lhs = sum((full(r, k) * vmat[k][c] for k in range(4)), 0)
+            eng.check(core.close(lhs, vmat[r][c] * dvec[c], 1e-9), "A.v = lambda.v", note=f"column {c} of the eigenvector matrix is not an eigenvector of the input for its eigenvalue (row {r})")
+    for c1 in range(4):
+        for c2 in range(c1, 4):
+            dot = sum((vmat[k][c1] * vmat[k][c2] for k in range(4)), 0)
+            eng.check(core.close(dot, 1 if c1 == c2 else 0, 1e-9), "V-orthonormal", note=f"columns {c1},{c2} of the eigenvector matrix are not orthonormal")
+    eng.check(And(dvec[0] <= dvec[1], dvec[1] <= dvec[2], dvec[2] <= dvec[3]), "ascending")
+
+
 def obligations(tier):
     obs = [
         Obligation("lemma-q2mat", run_lemma, dict(body="q2mat"), kind="lemma", group="lemma"),
@@ -346,6 +374,8 @@ def obligations(tier):
         obs.append(Obligation(f"lemma-horn-n{n}", run_lemma, dict(body="horn", n=n), kind="lemma", group="lemma"))
     for n in (3,) if tier == "quick" else (1, 2, 3, 4):
         obs.append(Obligation(f"lemma-place-n{n}", run_lemma, dict(body="place", n=n), kind="lemma", group="lemma"))
+    # h_jacobi_rotation (one real rotation step on a symbolic matrix) was probed: z3 answers unknown
+    # after 60 s on the eigen-equations through 1/(|q|+sqrt(1+q^2)); it is not registered (DESIGN 2.1.6)
     obs.append(Obligation("jacobi-sorted-nonzero", h_jacobi_sorted, dict(zero_allowed=False), group="jacobi", time_cap=1200))
     obs.append(Obligation("jacobi-sorted-zero-allowed", h_jacobi_sorted, dict(zero_allowed=True), group="jacobi", time_cap=1200))
     return obs
